@@ -39,6 +39,7 @@ class Product:
         self.payoff = payoff
         self.maturity = maturity
         self.notional = notional
+        self._process_representation = ProcessRepresentation.IDENDITY
 
     def underlying_value(
         self, times: TimeGrid, path: np.array, jump_path: np.array
@@ -53,7 +54,11 @@ class Product:
         underlying = self.payoff_underlying.value(
             times=times, path=path, jump_path=jump_path
         )
-        self.payoff.process(times, path)
+        # path-dependent payoffs (barriers) are written in terms of the underlying itself, not of its logarithm
+        if self._process_representation == ProcessRepresentation.LOG:
+            self.payoff.process(times, np.exp(path))
+        else:
+            self.payoff.process(times, path)
         return underlying
 
     def update(self, process_representation: ProcessRepresentation) -> None:
@@ -63,6 +68,7 @@ class Product:
                                        underlying or the log-underlying
         """
         self.payoff_underlying.update(process_representation)
+        self._process_representation = process_representation
 
     def __call__(self, underlying) -> float:
         """Applies the underlying value to the payoff product.
